@@ -21,9 +21,23 @@ Local Open Scope Z_scope.
 
 Inductive addr_type := P2PKH | NP2WPKH | P2WPKH | P2TR | OtherScript.
 
-(** Result of [Manager.AddrAccount]: the scoped manager's key scope (its
-    BIP-43 purpose: 44, 49, 84, 86) and the account number. *)
-Record owner := { o_scope : N; o_acct : N }.
+(** Result of [Manager.AddrAccount]: the scoped manager's key scope - the
+    PAIR (purpose, coin type) of [waddrmgr.KeyScope], compared as a whole by
+    [scopedMgr.Scope() != *keyScope]: (84, 0) and a custom scope (84, 1) are
+    different scopes - and the account number (imported keys: the account
+    [ImportedAddrAccount] = 2^31-1 of the scope they were imported into). *)
+Definition kscope := (N * N)%type.
+Record owner := {
+  o_scope : kscope;
+  o_acct : N;
+  (** the managed address has a private key ([ManagedPubKeyAddress.PrivKey]
+      does not answer ErrWatchingOnly).  Read only by the sign / skip decision
+      for the imported account ([lacksPrivKeys]). *)
+  o_priv : bool;
+}.
+
+(** [waddrmgr.ImportedAddrAccount] = MaxInt32 *)
+Definition imported_account : N := 2147483647.
 
 Record cand := {
   c_utxo : utxo;
@@ -62,7 +76,7 @@ Inductive strategy := Largest | Random.
 
 Record request := {
   r_acct : N;
-  r_scope : option N;                (* coinSelectKeyScope; None = any scope *)
+  r_scope : option kscope;           (* coinSelectKeyScope; None = any scope *)
   r_minconf : Z;
   r_rate : Z;                        (* feeSatPerKb *)
   r_strategy : strategy;
@@ -76,7 +90,10 @@ Record wctx := {
   x_height : Z;                      (* chainClient.BlockStamp().Height *)
   x_maturity : Z;                    (* chainParams.CoinbaseMaturity *)
   x_locked : list outpoint;          (* LockOutpoint set (memory only) *)
-  x_watch_only : bool;               (* IsWatchOnlyAccount of the selection scope/account *)
+  x_watch_only : bool;               (* IsWatchOnlyAccount (selection scope, or BIP86 when none; account):
+                                        true for a watch-only wallet, for an account imported by
+                                        extended public key and - always - for ImportedAddrAccount *)
+  x_wallet_wo : bool;                (* Manager.WatchOnly(): the wallet as a whole has no private keys *)
 }.
 
 (** ** findEligibleOutputs: one output, tests in the order of the code *)
@@ -91,7 +108,7 @@ Definition eligible_one (x : wctx) (r : request) (c : cand) : bool :=
        | None => false
        | Some o =>
          if match r_scope r with
-            | Some sc => negb (N.eqb (o_scope o) sc)
+            | Some sc => negb (bool_decide (o_scope o = sc))
             | None => false
             end then false
          else N.eqb (o_acct o) (r_acct r)
@@ -106,27 +123,34 @@ Definition eligible (x : wctx) (r : request) (cs : list cand) : list cand :=
 Definition by_outpoint (elig : list cand) : gmap outpoint cand :=
   foldl (fun m c => <[c_op c := c]> m) ∅ elig.
 
-(** The loop over the selection.  [rej_dup] is the regenerated fact
-    [explicit_selection_rejects_duplicates]: whether a second occurrence of
-    an outpoint returns an error ([seen] = the outpoints met so far). *)
-Fixpoint select_loop (rej_dup : bool) (m : gmap outpoint cand) (seen : list outpoint)
+(** The loop over the selection, parameterised by the two regenerated facts
+    (Generated/SelectFacts.v):
+    [rej_dup] = [explicit_selection_rejects_duplicates]: a second occurrence
+    of an outpoint returns an error ([seen] = the outpoints met so far);
+    [req_elig] = [explicit_selection_requires_eligible]: an outpoint that is
+    not a key of the map returns an error.  The [false] instances describe
+    the code without the respective test (no duplicate test: the outpoint is
+    used again; no miss test: the loop goes on to the next outpoint) and exist
+    for the refutation witnesses of Properties/C06.v. *)
+Fixpoint select_loop (rej_dup req_elig : bool) (m : gmap outpoint cand) (seen : list outpoint)
     (sel : list outpoint) (acc : list cand) : option (list cand) :=
   match sel with
   | [] => Some acc
   | op :: sel' =>
     if rej_dup && bool_decide (op ∈ seen) then None
     else match m !! op with
-         | None => None                       (* "selected outpoint not eligible for spending" *)
-         | Some e => select_loop rej_dup m (op :: seen) sel' (acc ++ [e])
+         | None => if req_elig then None       (* error: the selected outpoint is not eligible *)
+                   else select_loop rej_dup req_elig m (op :: seen) sel' acc
+         | Some e => select_loop rej_dup req_elig m (op :: seen) sel' (acc ++ [e])
          end
   end.
 
-Definition explicit_select_gen (rej_dup : bool) (elig : list cand) (sel : list outpoint) : option (list cand) :=
-  select_loop rej_dup (by_outpoint elig) [] sel [].
+Definition explicit_select_gen (rej_dup req_elig : bool) (elig : list cand) (sel : list outpoint) : option (list cand) :=
+  select_loop rej_dup req_elig (by_outpoint elig) [] sel [].
 
 (** The code as it is now. *)
 Definition explicit_select : list cand -> list outpoint -> option (list cand) :=
-  explicit_select_gen explicit_selection_rejects_duplicates.
+  explicit_select_gen explicit_selection_rejects_duplicates explicit_selection_requires_eligible.
 
 (** ** Coin selection strategies *)
 
@@ -181,38 +205,89 @@ Record created := {
 
 (** [None] = the request is refused by the selection itself.  (A refusal by
     the authoring loop - insufficient funds - is outside this model.) *)
+(** The sign / skip decision (createtx.go, after the dry-run exit): signing
+    is skipped when the address manager reports the account as watch-only -
+    unless it is the imported account of a wallet that is not watch-only as a
+    whole and the wallet holds the private key of every input
+    ([lacksPrivKeys] = false). *)
+Definition has_priv (c : cand) : bool :=
+  match c_owner c with Some o => o_priv o | None => false end.
+
+Definition skip_signing (x : wctx) (r : request) (ins : list cand) : bool :=
+  x_watch_only x &&
+  negb (N.eqb (r_acct r) imported_account && negb (x_wallet_wo x) && forallb has_priv ins).
+
+Definition mk_created (x : wctx) (r : request) (ins : list cand) : created :=
+  {| cr_inputs := ins; cr_signed := negb (r_dry r) && negb (skip_signing x r ins) |}.
+
 Definition create (x : wctx) (r : request) (shuffle : list cand -> list cand) (targets : list Z)
     (cs : list cand) : option created :=
   let elig := eligible x r cs in
-  let signed := negb (r_dry r) && negb (x_watch_only x) in
   match r_explicit r with
-  | [] =>
-    Some {| cr_inputs := inputs_after targets (arrange (r_strategy r) (r_rate r) shuffle elig);
-            cr_signed := signed |}
+  | [] => Some (mk_created x r (inputs_after targets (arrange (r_strategy r) (r_rate r) shuffle elig)))
   | sel =>
     match explicit_select elig sel with
     | None => None
-    | Some l => Some {| cr_inputs := l; cr_signed := signed |}   (* constantInputSource: all of them *)
+    | Some l => Some (mk_created x r l)   (* constantInputSource: all of them *)
     end
   end.
 
-(** ** Wallet-side events
+(** ** Publishing a created transaction
 
-    Publishing a created transaction records it as an unconfirmed relevant
-    transaction ([Seen], wallet.go reliablyPublishTransaction ->
-    addRelevantTx(rec, nil)).  The events a wallet performs on the store
-    without the chain moving: *)
+    The wallet hands a transaction it created to the backend
+    (wallet.go reliablyPublishTransaction): the transaction is first recorded
+    as an unconfirmed relevant transaction (addRelevantTx(rec, nil) = the
+    history event [Seen t]); when the backend refuses it, it is removed again
+    (publishTransaction -> RemoveUnminedTx = [Abandon t]).  [t] is a
+    transaction of the universe whose inputs are the inputs the creation
+    selected. *)
+Definition is_tx_of (U : universe) (t : txid) (cr : created) : bool :=
+  bool_decide (tx_ins U t = map c_op (cr_inputs cr)).
+
+Definition publish_accepted (t : txid) : list event := [Seen t].
+Definition publish_rejected (t : txid) : list event := [Seen t; Abandon t].
+
+(** The events a wallet performs on the store without the chain moving: *)
 Definition wallet_side (e : event) : bool :=
   match e with
   | Seen _ | Lease _ _ _ | Release _ _ | Tick _ | Sweep => true
   | _ => false                       (* confirmations, reorganisations, removals, re-deliveries *)
   end.
 
-(** A freshly created transaction: not recorded yet, and none of its outputs
-    is in the unspent index. *)
-Definition fresh_tx (t : tx) (s : store) : bool :=
-  negb (bool_decide (is_Some (unmined s !! t_id t))) && negb (has_mined_record (t_id t) s)
-  && negb (existsb (fun i => bool_decide (is_Some (unspent s !! (t_id t, i)))) (indices (t_outs t))).
+(** The transactions an event makes the ledger forget (mirrors
+    [spec_confirm] / [spec_disconnect] / [spec_abandon] of Tx/Ledger.v): the
+    unconfirmed transactions conflicting with a newly confirmed one, the
+    coinbases of detached blocks, an abandoned transaction - each with
+    everything that spends their outputs.  Every other event - receipts and
+    spends seen by the wallet (its own or anybody else's), leases, clock,
+    re-deliveries - forgets nothing. *)
+Definition displaced (U : universe) (F : facts) (e : event) : list txid :=
+  match e with
+  | Confirm c h bhash _ =>
+    match f_conf F !! c with
+    | Some _ => []
+    | None =>
+      let uc := elements (f_unconf F ∖ {[c]}) in
+      descendants U (S (length uc)) uc (filter (fun u => conflicts U c u) uc)
+    end
+  | Disconnect h =>
+    let gone_ids := map fst (filter (fun kv : txid * blockid => h <= kv.2.1) (map_to_list (f_conf F))) in
+    let cb := filter (fun t => is_coinbase U t) gone_ids in
+    let back := filter (fun t => negb (is_coinbase U t)) gone_ids in
+    let uc := elements (f_unconf F ∪ list_to_set back) in
+    descendants U (S (length uc)) uc cb
+  | Abandon a =>
+    let uc := elements (f_unconf F) in
+    descendants U (S (length uc)) uc [a]
+  | _ => []
+  end.
+
+(** [t] survives the events [evs] applied from the ledger state [m]. *)
+Fixpoint never_displaced (U : universe) (m : sstate) (t : txid) (evs : list event) : bool :=
+  match evs with
+  | [] => true
+  | e :: evs' => negb (bool_decide (t ∈ displaced U (fs m) e)) && never_displaced U (spec_step U m e) t evs'
+  end.
 
 (** The candidates the wallet sees in a model state. *)
 Definition wallet_cands (U : universe) (m : mstate) (own : outpoint -> option owner)
